@@ -34,6 +34,10 @@ ASSUMPTIONS = [
     'chemical lists: every subset of size 1-4 (thorough: 1-5) of (Methanol, Ethanol, Propanol, 1-Butanol), (Hexane, Heptane, Octane, Benzene, Toluene) '
     'and (Water, Ethanol, Methanol); packages: ideal (thermo.ideal()) and the default activity-coefficient package (Dortmund UNIFAC, ideal gas, no Poynting); '
     'plus Dortmund + IdealGasPoyintingCorrectionFactors on the subsets of (Water, Ethanol, Methanol)',
+    'c08.grid.eos: packages with the equation-of-state based PRActivityCoefficients / SRKActivityCoefficients on the same subsets are judged ONLY by the clauses `non-physical` and `gamma-ignored`: '
+    'those classes are not normalised activity coefficients (not among the models of property C16), so the defining-equation, ordering, round-trip, scale and permutation clauses would test the classes, not the '
+    'bubble/dew solvers; FloatingPointError from these packages counts as rejected there',
+    'c08.grid.fallback: water-rich (99 / 95 / 90 mol%) Water + Heptane | Hexane | Octane (+ Ethanol at zero) under Dortmund at 3e5, 1e6, 3e6 Pa and 300, 350 K — the region in which the solvers enter their bracketing fallback',
     'compositions: simplex grid step 1/4 incl. zero components and vertices, plus 1e-8 trace entries, plus one dominant component with a trace at 1e-17 / 1e-16 / 1e-15 in every ordered pair '
     'of positions (quick: 1e-17 and one seed-rotated other level); the list (SO2, Ethanol, Methanol) adds a volatile member without group data in every position; T in {260,300,350,400,480} K intersected with '
     'every listed chemical\'s Psat range, plus 0.5 / 5 / 10 K inside each end of that range that lies within 260-480 K (lists with Benzene, Cyclohexane, 1-Butanol, SO2); P in {5e3, 101325, 1e6, 3e6} Pa; scale k in {0.5, 2, 10, 1e-17, 1e-12, 1e6, 1e12} (quick: one seed-rotated of the first three + 1e-17 + 1e12); nothing is claimed between grid points',
@@ -126,6 +130,14 @@ def _thermo(pkg, ids):
             tmo = fx.tmo()
             base = fx.custom_thermo(ids)
             _pcf_thermos[key] = tmo.Thermo(base.chemicals, PCF=_eq.IdealGasPoyintingCorrectionFactors)
+        return _pcf_thermos[key]
+    if pkg in ('pr', 'srk'):      # equation-of-state based activity-coefficient classes
+        key = (pkg,) + tuple(ids)
+        if key not in _pcf_thermos:
+            tmo = fx.tmo()
+            from thermosteam.equilibrium import activity_coefficients as ac
+            base = fx.custom_thermo(ids)
+            _pcf_thermos[key] = tmo.Thermo(base.chemicals, Gamma=ac.PRActivityCoefficients if pkg == 'pr' else ac.SRKActivityCoefficients)
         return _pcf_thermos[key]
     raise ValueError(pkg)
 
@@ -374,7 +386,7 @@ class Grid(System):
     def actions(self, st):
         n = len(st.m.ids)
         acts = []
-        zs = compositions(n, st.levels)
+        zs = self._zs(st)
         for kind in ('bubble', 'dew'):
             for z in zs: acts.append(('core', kind, z))
         for z in zs: acts.append(('order', z))
@@ -385,6 +397,9 @@ class Grid(System):
                 if n >= 2:
                     for z in zs: acts.append(('perm', kind, z))
         return acts
+
+    def _zs(self, st):
+        return compositions(len(st.m.ids), st.levels)
 
     def _perms(self, st):
         n = len(st.m.ids)
@@ -446,6 +461,8 @@ class Grid(System):
                 raise Violation('specification-not-returned', f'{who}: returned {spec}={given!r}', match=self._match(st, kind, z))
             if not (np.all(np.isfinite(f)) and math.isfinite(T) and math.isfinite(P) and np.all(f >= 0)):
                 raise Violation('non-finite', f'{who}: T={T}, P={P}, fractions={f.tolist()}', match=self._match(st, kind, z, zclass=zclass(z)))
+            if not (T > 0 and P > 0):
+                raise Violation('non-physical', f'{who}: returned T={T!r} K, P={P!r} Pa', match=self._match(st, kind, z))
             if not abs(f.sum() - 1.0) <= 1e-9:
                 raise Violation('fractions-not-normalised', f'{who}: fractions sum to {f.sum()!r}', match=self._match(st, kind, z), residual=abs(f.sum() - 1))
             if spec == 'P' and not (m.lo - 1e-6 <= T <= m.hi + 1e-6):
@@ -475,6 +492,7 @@ class Grid(System):
                     else:
                         ref = m.dew_x(zn, T, P, f)
                     r_sum = abs(ref.sum() - 1.0); r_frac = float(np.max(np.abs(ref - f)))
+                self._gamma_ignored(st, kind, z, zn, T, P, f, who)
                 if not (r_sum <= 1e-6 and r_frac <= 1e-6):
                     raise Violation('residual', f'{who}: T={T}, P={P}, returned fractions {f.tolist()}; modified Raoult\'s law gives {ref.tolist()} '
                                     f'(sum {ref.sum()!r})', match=self._match(st, kind, z, zclass=zclass(z)), residual=max(r_sum, r_frac))
@@ -522,6 +540,25 @@ class Grid(System):
                                 match=self._match(st, kind, z, zclass=zclass(z), point=point), residual=err)
         st.tag = 'single' if n1 else 'multi'
         return ('ok', zclass(z), tuple(judged))
+
+    def _gamma_ignored(self, st, kind, z, zn, T, P, f, who):
+        """the package's activity coefficients must take part: a result that coincides with the ideal package's although the package's
+        gamma at the liquid composition is far from one (sum x_i |gamma_i - 1| > 1e-2) cannot satisfy the defining equation"""
+        m = st.m; spec, val = st.spec, st.val
+        if m.pkg == 'ideal': return
+        with np.errstate(all='ignore'):
+            xl = zn if kind == 'bubble' else f / f.sum()
+            try:
+                with isolated():      # a FRESH model instance: the EOS-based classes remember their last state (first evaluation != later ones at x = 0)
+                    g = np.asarray(m.thermo.Gamma(m.chems)(np.array(xl, float), T), float)
+            except Exception: return
+            far = bool(float(np.dot(np.asarray(xl, float), np.abs(g - 1.0))) > 1e-2)      # mole-weighted: a trace component does not count
+        if not far: return
+        try: Ti, Pi, fi = solve(model('ideal', m.ids), kind, spec, z, val)
+        except (Rejected, Violation): return
+        if rel(T, Ti) <= 1e-9 and rel(P, Pi) <= 1e-9:
+            raise Violation('gamma-ignored', f'{who}: T={T}, P={P} is exactly the ideal-package result although gamma({np.asarray(xl).tolist()}, T) = {g.tolist()}',
+                            match=self._match(st, kind, z))
 
     def _compare(self, st, kind, what, base, other, label, z, extra):
         T0, P0, f0 = base; T1, P1, f1 = other
@@ -806,3 +843,71 @@ SYSTEMS = [
 ]
 
 SYSTEMS.append(Grid('c08.grid.pcf', ('dortmund+pcf',), families=('WEM',)))
+class EosGrid(Grid):
+    """Packages whose Gamma is an equation-of-state based class (PRActivityCoefficients, SRKActivityCoefficients).  Those classes return liquid
+    fugacity coefficients at 101325 Pa rather than normalised activity coefficients (outside property C16's list of models), so the defining-equation,
+    ordering, round-trip, scale and permutation clauses would judge those classes, not the bubble/dew solvers.  Only the two clauses that are about
+    the solvers themselves are applied here: the returned T and P are physical (`non-physical`) and the package's gamma takes part in the solution
+    (`gamma-ignored`).  Documented rejections and FloatingPointError from these packages count as rejected."""
+    def actions(self, st):
+        return [('core', kind, z) for kind in ('bubble', 'dew') for z in self._zs(st)]
+
+    def step(self, st, a):
+        m = st.m; spec, val = st.spec, st.val
+        st.tag = None; FALLBACK[0] = 0
+        kind, z = a[1], a[2]
+        za = np.array(z, float); zn = za / za.sum()
+        try:
+            T, P, f = solve(m, kind, spec, z, val)
+        except Violation as v:
+            if v.clause == 'unexpected-exception' and v.match.get('exc') in ('FloatingPointError', 'ZeroDivisionError'):
+                raise Rejected(f'{kind}:{spec}:{v.match.get("exc")}', cut=False)
+            raise
+        who = f'{"BubblePoint" if kind == "bubble" else "DewPoint"}{m.ids}({list(z)}, {spec}={val}) [{m.pkg}]'
+        if not (T > 0 and P > 0):
+            raise Violation('non-physical', f'{who}: returned T={T!r} K, P={P!r} Pa', match=self._match(st, kind, z))
+        if npos(z) >= 2 and np.all(np.isfinite(f)) and f.sum() > 0:
+            self._gamma_ignored(st, kind, z, zn, T, P, f, who)
+        st.tag = 'multi' if npos(z) >= 2 else 'single'
+        return ('ok', zclass(z))
+
+SYSTEMS.append(EosGrid('c08.grid.eos', ('pr', 'srk'), families=('WEM',)))
+
+
+class Fallback(Grid):
+    """Water-rich liquids holding a little sparingly soluble alkane under the activity-coefficient package at elevated pressure: the bubble
+    temperature lies far below the ideal-solution start value, the first secant step overshoots below 0 K and the solvers enter their
+    bracketing (IQ-interpolation) fallback.  `distinct_nontrivial` of this system counts the cases in which the fallback was entered."""
+    LISTS = [('Water', 'Heptane'), ('Heptane', 'Water'), ('Water', 'Hexane'), ('Water', 'Octane'), ('Water', 'Octane', 'Ethanol')]
+    RICH = (0.99, 0.95, 0.9)
+
+    def warm(self):
+        Grid.warm(self)
+        for l in self.LISTS:
+            for i in l: fx.chemical(i)
+
+    def configs(self, tier, seed):
+        cfgs = []
+        for ids in self.LISTS:
+            for P in (3e5, 1e6, 3e6):
+                cfgs.append(('dortmund', ids, 'P', P, True, (K_GRID[seed % 3],), tier == 'thorough', ()))
+            for T in (300.0, 350.0):
+                cfgs.append(('dortmund', ids, 'T', T, tier == 'thorough', (K_GRID[seed % 3],), tier == 'thorough', ()))
+        return cfgs
+
+    def describe(self, tier):
+        return dict(packages=['dortmund'], chemical_lists=len(self.LISTS), note='distinct_nontrivial = cases that entered the bracketing fallback')
+
+    def _zs(self, st):
+        ids = st.m.ids; w = ids.index('Water'); n = len(ids)
+        out = []
+        for r in self.RICH:
+            z = [0.0] * n; z[w] = r
+            a = [i for i in range(n) if ids[i] not in ('Water', 'Ethanol')][0]
+            z[a] = round(1.0 - r, 12)
+            out.append(tuple(z))
+        return out
+
+    def nontrivial(self, st, a, obs): return FALLBACK[0] > 0
+
+SYSTEMS.append(Fallback('c08.grid.fallback', ('dortmund',)))
